@@ -25,6 +25,19 @@ with 1..6 names and styles from the C06 space.
   c20.config_roundtrip              lower-case dotted names, links without "%"
   c20.config_roundtrip:percent      the same names, at least one link containing "%"
   c20.config_roundtrip:name_chars   names containing upper-case letters, ":" or "="
+
+The statement says "a theme", so the round trip also covers the themes the three families above never build: a theme
+with an entry whose style is blank (Style() / Style.null() / "none": the entry is still an entry of the theme, a console built from it resolves the name to the null style instead of MissingStyle or a style of
+a theme below), and a theme built with inherit=True, i.e. DEFAULT_STYLES underneath with some of the default names
+overridden (possibly by the blank style) and some new names.  The config text of such a theme lists every entry, so it
+reads back equal with from_file(..., inherit=False) and with from_file(..., inherit=True) alike; a stand-alone theme
+(inherit=False) is read back with inherit=False only (inherit=True would add the defaults: not the same theme).
+
+  c20.config_roundtrip:blank          stand-alone theme, 1..6 names, at least one entry is the blank style
+  c20.config_roundtrip:over_defaults  Theme(own, inherit=True), own = 0..4 default / new names (blank or not); read back
+                                      with inherit=True and with inherit=False
+  c20.config_roundtrip:resolve        for the themes of the two families above: a console built from the read-back theme
+                                      resolves every own name (and some default names) to the entry of the original theme
 """
 from __future__ import annotations
 
@@ -387,6 +400,7 @@ ODD_NAMES = ["Warn", "ERROR", "repr.Number", "a:b", "key=value", "x:", "mIxEd.ca
 PLAIN_LINKS = [None, None, "https://example.org/a", "foo"]
 PERCENT_LINKS = ["http://x/y%20z", "http://x/?q=%41&r=1", "100%", "%(a)s"]
 ATTRS = ["bold", "dim", "italic", "underline", "blink", "blink2", "reverse", "conceal", "strike", "underline2", "frame", "encircle", "overline"]
+BLANKS = [{}, {}, "none"]  # the blank style: Style() by keyword arguments, or the definition "none"
 COLOURS = [None, None, "default", "red", "bright_blue", "white", "color(0)", "color(9)", "color(200)", "#000000", "#ff8000", "rgb(0,0,0)", "rgb(255,128,1)", "grey50", "color(255)", "#123abc"]
 
 
@@ -408,42 +422,97 @@ def gen_style_kwargs(rng: random.Random, links) -> dict:
     return kw
 
 
-def roundtrip(theme_spec: List[Tuple[str, dict]]):
-    """-> None or (expected, observed)"""
+def make_style(v):
+    """a spec value is a dict of Style keyword arguments ({} is the blank style) or a style definition string"""
     from rich.style import Style
+
+    return Style.parse(v) if isinstance(v, str) else Style(**v)
+
+
+def roundtrip(theme_spec: List[Tuple[str, object]], theme_inherit: bool = False, read_inherit: bool = False, want_back: bool = False):
+    """-> None or (expected, observed); with want_back -> (that, read-back theme or None, expected styles)"""
     from rich.theme import Theme
 
-    styles = {name: Style(**kw) for name, kw in theme_spec}
-    theme = Theme(styles, inherit=False)
+    styles = {name: make_style(v) for name, v in theme_spec}
+    theme = Theme(styles, inherit=theme_inherit)
+    # the entries of the theme, written from the documented meaning of Theme's own inherit flag
+    entries = {}
+    if theme_inherit:
+        from rich.default_styles import DEFAULT_STYLES
+
+        entries.update(DEFAULT_STYLES)
+    entries.update(styles)
     expected = {k: str(v) for k, v in theme.styles.items()}
+    back = None
     try:
         config = theme.config
-        back = Theme.from_file(io.StringIO(config), inherit=False)
+        back = Theme.from_file(io.StringIO(config), inherit=read_inherit)
     except Exception as e:  # noqa
-        return (expected, "%s: %s" % (type(e).__name__, e))
-    if back.styles == theme.styles:
-        return None
-    return (expected, {k: str(v) for k, v in back.styles.items()})
+        res = (expected, "%s: %s" % (type(e).__name__, e))
+    else:
+        if back.styles == theme.styles and back.styles == entries:
+            res = None
+        else:
+            if back.styles == theme.styles:
+                expected = {k: str(v) for k, v in entries.items()}
+            res = (expected, {k: str(v) for k, v in back.styles.items()})
+    if want_back:
+        return res, back, entries
+    return res
 
 
-def minimise_theme(spec):
+def diff_only(expected, observed):
+    """keep only the entries that differ (the default theme has 130 entries)"""
+    if not isinstance(expected, dict) or not isinstance(observed, dict):
+        return expected, observed
+    names = sorted(set(expected) | set(observed))
+    names = [n for n in names if expected.get(n, "<no entry>") != observed.get(n, "<no entry>")]
+    return {n: expected.get(n, "<no entry>") for n in names}, {n: observed.get(n, "<no entry>") for n in names}
+
+
+def resolve_mismatch(theme_spec, theme_inherit: bool, read_inherit: bool):
+    """a console built from the read-back theme resolves a name to the entry of the original theme
+    -> (number of lookups, None or (name, expected, observed)); (0, None) when the config text does not read at all
+    (that is reported by the round-trip clause)"""
+    from rich.console import Console
+
+    _, back, entries = roundtrip(theme_spec, theme_inherit, read_inherit, want_back=True)
+    if back is None:
+        return 0, None
+    console = Console(file=io.StringIO(), theme=back)
+    names = [name for name, _ in theme_spec]
+    if theme_inherit:
+        names += [p for p in DEFAULT_PROBES if p not in names]
+    for n, name in enumerate(names):
+        want = ("style", entries[name])
+        got = observe(console, name)
+        if not same(want, got):
+            return n + 1, (name, show(want), show(got))
+    return len(names), None
+
+
+def minimise_theme(spec, fails=None):
+    if fails is None:
+        fails = lambda s: roundtrip(s) is not None  # noqa
     spec = list(spec)
     changed = True
     while changed:
         changed = False
         for i in range(len(spec)):
             cand = spec[:i] + spec[i + 1 :]
-            if cand and roundtrip(cand) is not None:
+            if cand and fails(cand):
                 spec = cand
                 changed = True
                 break
         if changed:
             continue
         for i, (name, kw) in enumerate(spec):
+            if not isinstance(kw, dict):
+                continue
             for key in list(kw):
                 kw2 = {k: v for k, v in kw.items() if k != key}
                 cand = spec[:i] + [(name, kw2)] + spec[i + 1 :]
-                if roundtrip(cand) is not None:
+                if fails(cand):
                     spec = cand
                     changed = True
                     break
@@ -522,6 +591,55 @@ def _work(job):
                 if len(lst) < 6:
                     lst.append({"clause": clause, "theme": spec})
         res["samples"].append({"theme": spec})
+    elif kind == "config2":
+        from rich.default_styles import DEFAULT_STYLES
+
+        _, seed, count = job
+        rng = random.Random(seed)
+        default_names = sorted(DEFAULT_STYLES)
+        styled_defaults = [k for k in default_names if DEFAULT_STYLES[k]]  # defaults that give the name a look
+
+        def some_style(blank_p):
+            r = rng.random()
+            if r < blank_p:
+                return rng.choice(BLANKS)
+            if r < blank_p + 0.3:
+                return rng.choice(STYLE_DEFS)
+            return gen_style_kwargs(rng, PLAIN_LINKS)
+
+        for n in range(count):
+            if n % 2 == 0:
+                clause = "c20.config_roundtrip:blank"
+                theme_inherit = read_inherit = False
+                k = rng.randint(1, 6)
+                names = rng.sample(LOWER_NAMES, k)
+                spec = [(nm, some_style(0.25)) for nm in names]
+                i = rng.randrange(k)
+                spec[i] = (names[i], rng.choice(BLANKS))
+            else:
+                clause = "c20.config_roundtrip:over_defaults"
+                theme_inherit = True
+                read_inherit = n % 4 == 1
+                k = rng.choice((0, 1, 1, 2, 3, 4))
+                pool = rng.sample(styled_defaults, 3) + rng.sample(default_names, 2) + rng.sample(LOWER_NAMES, 3)
+                names = rng.sample(sorted(set(pool)), k)
+                spec = [(nm, some_style(0.4)) for nm in names]
+            res["evaluations"] += 1
+            res["clauses"][clause] = res["clauses"].get(clause, 0) + 1
+            res["nontrivial"].add(hash(repr((spec, theme_inherit, read_inherit))))
+            r = roundtrip(spec, theme_inherit, read_inherit)
+            if r is not None:
+                lst = res["failures"].setdefault(clause, [])
+                if len(lst) < 6:
+                    lst.append({"clause": clause, "theme": spec, "theme_inherit": theme_inherit, "read_inherit": read_inherit})
+            looked, bad = resolve_mismatch(spec, theme_inherit, read_inherit)
+            clause = "c20.config_roundtrip:resolve"
+            res["clauses"][clause] = res["clauses"].get(clause, 0) + looked
+            if bad is not None:
+                lst = res["failures"].setdefault(clause, [])
+                if len(lst) < 6:
+                    lst.append({"clause": clause, "theme": spec, "theme_inherit": theme_inherit, "read_inherit": read_inherit})
+        res["samples"].append({"theme": spec, "theme_inherit": theme_inherit, "read_inherit": read_inherit})
     return res
 
 
@@ -536,6 +654,9 @@ def run(tier: str, seed: int) -> dict:
         jobs.append(("hist", seed * 1000003 + i, per, i % 3 == 2))
     for i in range(n_conf // per):
         jobs.append(("config", seed * 1000003 + 700000 + i, per))
+    n_conf2 = 2000 if quick else 48000
+    for i in range(n_conf2 // per):
+        jobs.append(("config2", seed * 1000003 + 900000 + i, per))
     procs = max(1, min(16, os.cpu_count() or 1))
     if procs > 1:
         with multiprocessing.Pool(procs) as pool:
@@ -562,30 +683,49 @@ def run(tier: str, seed: int) -> dict:
 
             def kind(f):
                 names = "".join(n for n, _ in f["theme"] if n not in LOWER_NAMES)
-                links = "".join(kw.get("link") or "" for _, kw in f["theme"])
-                return (":" in names, "=" in names, names != names.lower(), "%(" in links, "%" in links)
+                links = "".join((kw.get("link") or "") if isinstance(kw, dict) else "" for _, kw in f["theme"])
+                return (":" in names, "=" in names, names != names.lower(), "%(" in links, "%" in links, f.get("theme_inherit", False), f.get("read_inherit", False))
 
             firsts = {}
             for f in cands:
                 firsts.setdefault(kind(f), f)
             cands = list(firsts.values()) + [f for f in cands if all(f is not g for g in firsts.values())]
             for f in cands[:60]:
-                spec = minimise_theme(f["theme"])
-                key = repr(spec)
+                t_inh, r_inh = f.get("theme_inherit", False), f.get("read_inherit", False)
+                from rich.theme import Theme
+
+                if clause == "c20.config_roundtrip:resolve":
+                    spec = minimise_theme(f["theme"], lambda s: resolve_mismatch(s, t_inh, r_inh)[1] is not None)
+                    bad = resolve_mismatch(spec, t_inh, r_inh)[1]
+                    if bad is None:  # pragma: no cover
+                        continue
+                    name, expected, observed = bad
+                    what = "a console built from Theme.from_file(io.StringIO(theme.config), inherit=%s) resolves %r differently from the theme (Theme(..., inherit=%s))" % (r_inh, name, t_inh)
+                else:
+                    spec = minimise_theme(f["theme"], lambda s: roundtrip(s, t_inh, r_inh) is not None)
+                    r = roundtrip(spec, t_inh, r_inh)
+                    if r is None:  # pragma: no cover
+                        continue
+                    expected, observed = diff_only(*r) if t_inh else r
+                    what = "Theme.from_file(io.StringIO(theme.config)) does not have the styles of the theme"
+                    if t_inh or r_inh:
+                        what = "Theme.from_file(io.StringIO(theme.config), inherit=%s) does not have the styles of the theme (Theme(..., inherit=%s))" % (r_inh, t_inh)
+                key = repr(spec) if not (t_inh or r_inh) else repr((spec, t_inh, r_inh))
                 if key in seen:
                     continue
                 seen.add(key)
-                expected, observed = roundtrip(spec)
-                from rich.style import Style
-                from rich.theme import Theme
-
-                config = Theme({n: Style(**kw) for n, kw in spec}, inherit=False).config
+                config = Theme({n: make_style(v) for n, v in spec}, inherit=t_inh).config
+                if t_inh:
+                    # 130 default entries: keep the lines of the own names and say so
+                    own = set(n for n, _ in spec)
+                    lines = config.split("\n")
+                    config = "\n".join(ln for ln in lines if ln.startswith("[") or ln.split(" = ")[0] in own) + "\n(+ %d lines of default entries)" % (len(lines) - 1 - sum(1 for ln in lines if ln.split(" = ")[0] in own))
                 failures.append(
                     {
                         "check": clause,
-                        "what": "Theme.from_file(io.StringIO(theme.config)) does not have the styles of the theme",
+                        "what": what,
                         "input_key": key,
-                        "input": {"theme": spec, "config": config},
+                        "input": {"theme": spec, "theme_inherit": t_inh, "read_inherit": r_inh, "config": config},
                         "expected": expected,
                         "observed": observed,
                     }
@@ -623,10 +763,13 @@ def run(tier: str, seed: int) -> dict:
         "distinct_nontrivial": len(total["nontrivial"]),
         "rule": "a case is one history (base theme, 2..4 themes, program of push / pop / use_theme blocks; every probe is looked up after "
         "every step) or one theme for the config round trip; distinct by hash of its description; a history is non-trivial with >= 2 steps, "
-        "every round-trip theme is non-trivial (>= 1 name).",
+        "every round-trip theme is non-trivial (>= 1 entry; a Theme(own, inherit=True) has the 130 default entries besides its own).",
         "bound": "%d histories of <= 30 steps, nesting <= 3, themes over names %r (own inherit flag 25%% True), probes = those names + %r + "
         "definitions %r; one third of the histories contain use_theme(inherit=False); %d round-trip themes with 1..6 names from %r / odd "
-        "names %r, 13 tri-state attributes, colours %r, links %r / %r" % (n_hist, NAMES, DEFAULT_PROBES, DEFINITIONS, n_conf, LOWER_NAMES, ODD_NAMES, [c for c in COLOURS if c], [l for l in PLAIN_LINKS if l], PERCENT_LINKS),
+        "names %r, 13 tri-state attributes, colours %r, links %r / %r; %d more round-trip themes: half stand-alone with 1..6 of those names and >= 1 "
+        "blank entry (Style() / 'none'), half Theme(own, inherit=True) with 0..4 own names drawn from the default names and those names, each "
+        "blank with probability 0.4, else a definition from %r or a style of that space, read back with inherit=True and inherit=False alternately"
+        % (n_hist, NAMES, DEFAULT_PROBES, DEFINITIONS, n_conf, LOWER_NAMES, ODD_NAMES, [c for c in COLOURS if c], [l for l in PLAIN_LINKS if l], PERCENT_LINKS, n_conf2, STYLE_DEFS),
         "samples": total["samples"],
         "clauses": dict(sorted(total["clauses"].items())),
         "failures": failures,
